@@ -206,6 +206,23 @@ fn sched_case(
     scratch: &mut Vec<f64>,
     verbose: bool,
 ) -> Result<RunInfo, Fail> {
+    sched_case_tail(frames, 0, rate, pf, stereo, lens, m, scratch, verbose)
+}
+
+/// `tail` > 0: that many bytes (fewer than fourteen, so not a frame) follow the last frame in
+/// `frame_data`; the log still has exactly `frames.len()` frames.
+#[allow(clippy::too_many_arguments)]
+fn sched_case_tail(
+    frames: &[Frame],
+    tail: usize,
+    rate: usize,
+    pf: u8,
+    stereo: bool,
+    lens: &[usize],
+    m: &Model,
+    scratch: &mut Vec<f64>,
+    verbose: bool,
+) -> Result<RunInfo, Fail> {
     let tag = if stereo { "stereo" } else { "mono" };
     let ch = if stereo { 2 } else { 1 };
     REC.with(|r| {
@@ -218,7 +235,8 @@ fn sched_case(
         scratch.resize(maxlen, 0.0);
     }
     let res = catch_unwind(AssertUnwindSafe(|| -> Result<(RunInfo, Option<Fail>), Fail> {
-        let vtx = mk_vtx(frames, false, 1, 1773400, pf);
+        let mut vtx = mk_vtx(frames, false, 1, 1773400, pf);
+        vtx.frame_data.extend(std::iter::repeat(0x5A).take(tail));
         let mut player = Player::<RecAy>::new(vtx, rate, stereo);
         let mut pos = 0usize;
         let mut short_calls = 0;
@@ -535,6 +553,37 @@ fn sched_enumeration(ctx: &Ctx, col: &Collector) {
         calls_total.fetch_add(calls, std::sync::atomic::Ordering::Relaxed);
         ctx.outcomes_bulk(&outs);
     });
+    // register data that does not end on a frame boundary (the fields are public): 1..13 trailing
+    // bytes are not a frame of fourteen values, the log has floor(len/14) frames
+    {
+        let mut n = 0u64;
+        let mut scratch = Vec::new();
+        for f in 0..=2usize {
+            for spf in [1usize, 3] {
+                for tail in [1usize, 7, 13] {
+                    for stereo in [false, true] {
+                        for frames in reduced_logs(f) {
+                            let m = model(&frames, spf);
+                            let unit = if stereo { 2 } else { 1 };
+                            for lens in [vec![64usize, 8], vec![unit; 24], vec![3; 16]] {
+                                n += 1;
+                                if let Err(fail) = sched_case_tail(&frames, tail, spf * 50, 50, stereo, &lens, &m, &mut scratch, false) {
+                                    let key = format!("{}:trailing-bytes", fail.0);
+                                    col.fail((900 + f as u64, tail as u64, n), &key, &format!("register data of {} frame(s) followed by {} trailing byte(s): {}", f, tail, fail.1), || {
+                                        let mut j = sched_json(&frames, spf * 50, 50, stereo, &lens);
+                                        j["tail"] = json!(tail);
+                                        j
+                                    });
+                                }
+                            }
+                        }
+                    }
+                }
+            }
+        }
+        ctx.add_eval(n);
+        ctx.note("sched_trailing_byte_cases", json!(n));
+    }
     ctx.note("sched_play_calls", json!(calls_total.into_inner()));
     // a few real cases for the evidence file
     for (ci, li, idx) in [(40usize, 5usize, 77u64), (41, 9, 1234), (90, 1, 4242)] {
@@ -1156,7 +1205,7 @@ fn replay_case(path: &str) -> i32 {
             let stereo = case["stereo"].as_bool().unwrap();
             println!("replay: recording backend, {} frames, rate {} / player frequency {} = {} samples per frame, stereo {}, buffer lengths {:?}", frames.len(), rate, pf, rate / pf as usize, stereo, lens);
             let m = model(&frames, rate / pf as usize);
-            sched_case(&frames, rate, pf, stereo, &lens, &m, &mut Vec::new(), true).map(|_| ())
+            sched_case_tail(&frames, case["tail"].as_u64().unwrap_or(0) as usize, rate, pf, stereo, &lens, &m, &mut Vec::new(), true).map(|_| ())
         }
         "real" => {
             let frames = frames_from(&case["frames"]);
